@@ -93,8 +93,19 @@ func worldScenario(c *Ctx, run string, rng *mrand.Rand, genesisOffset time.Durat
 		defer w.Close()
 		daBT := 300 * time.Millisecond
 		ttl := uint64(2)
+		congested := false
 		if slowDA {
 			ttl = 20 // a rejected submission backs off for DABlockTime x MempoolTTL = 6s: longer than "promptly"
+			worldScriptN++
+			if worldScriptN%2 == 0 {
+				// a congested DA layer instead: each submission loop is rejected several times in a row (short back-off, its
+				// gas price climbs) before it is accepted, while the other loops run
+				congested = true
+				ttl = 1
+				if stopAfter < 4*time.Second {
+					stopAfter = 4 * time.Second
+				}
+			}
 		}
 		seq := w.NewNode(world.NodeOpts{Name: "seq", Aggregator: true, Lazy: lazy, BlockTime: 100 * time.Millisecond, LazyInterval: 400 * time.Millisecond, DABlockTime: daBT, MempoolTTL: ttl})
 		seq.KV.Quiet = false
@@ -116,6 +127,9 @@ func worldScenario(c *Ctx, run string, rng *mrand.Rand, genesisOffset time.Durat
 		seq.SeqD.Inner = inner
 		if slowDA {
 			w.DA.SubmitScript = []string{"timeout", "err", "prefix:1", "mempool", "acklost:1", "toobig", "err"}
+			if congested {
+				w.DA.SubmitScript = []string{"timeout", "timeout", "mempool", "mempool", "timeout", "timeout", "ok", "ok", "mempool", "timeout", "mempool", "timeout", "ok", "ok"}
+			}
 		}
 		if err := seq.Start(context.Background()); err != nil {
 			return
@@ -300,6 +314,8 @@ func fullChannelStop(c *Ctx, run string, viaP2P bool) {
 
 // RunWorld: stop instants across the start-up delay, ticks and in-flight work; genesis in the past
 // and in the future; lazy and normal mode; fast and failing DA; with and without a full node.
+var worldScriptN int
+
 func RunWorld(c *Ctx) {
 	rng := mrand.New(mrand.NewSource(c.Seed + 1234))
 	n := 10
